@@ -22,17 +22,20 @@ META = {
     'technique': ('Lean 4 proofs over an executable model of validator pairs + sqlite literal rendering + SQLite literal '
                   'evaluation/affinity + driver fetch; format strings, literals, column types extracted from /repo; '
                   'differential correspondence and an independent read-back oracle on in-memory SQLite; '
-                  'TRANSLATOR tie: the Python AST of the Int/Bool/String/Unicode/Enum/ForeignKey/DateTime/Date/Time/Decimal/'
-                  'Binary validator methods and of the createValidators lists is translated on every run into a deep '
-                  'embedding (Model/PyCodec.lean) and proved equal to the model functions for ALL values of the universe'),
+                  'TRANSLATOR tie: the Python AST of ALL validator methods of col.py that C01 uses (Int/Bool/String/Unicode/Enum/'
+                  'ForeignKey/DateTime/Date/Time/Decimal/Binary/Float/DecimalString/Pickle/Uuid/JSON), of the createValidators '
+                  'lists and of SQLObject._SO_selectInit is translated on every run into a deep embedding (Model/PyCodec.lean) and '
+                  'proved equal to the model functions for ALL values of the universe (all column lists / rows for the read loop); '
+                  'the class / hasattr tables the translated code is run with are compared with real Python objects (streams iface-*)'),
     'level_text': ('Theorems C01_roundtrip_<T>: for ALL values of the domain (all NUL-free code point lists, all int64, '
                    'all valid y/m/d/H/M/S/us, every declared enum value, all byte lists) toPy(fetch(store(aff T, lit(toDb v)))) = v, '
                    'about the extracted format strings / literals / column types; C01_eq_query_finds; '
                    'C01_accepted_readable (_partial proved, _full_FALSE from the FloatCol<-2**53+1 witness); glue theorems '
                    'for Float/Decimal/DecimalString/Pickle/JSON/Uuid.  C01_translated_<Validator>_<method>_eq_model: the translated '
-                   'source of 15 validator methods = the model function on every universe value; '
-                   'C01_translated_createValidators_chain_eq_model: col.from_python / col.to_python = toDb / toPy for the kinds whose '
-                   'validators are all translated; C01_translated_roundtrip_* and C01_translated_accepted_readable_partial restate the '
+                   'source of 24 validator methods = the model function on every universe value; '
+                   'C01_translated_createValidators_chain_eq_model: col.from_python / col.to_python = toDb / toPy for EVERY column kind; '
+                   'C01_translated_selectInit_eq_model: the to_python loop of _SO_selectInit = the model read path for every column '
+                   'list and row; C01_translated_roundtrip_* and C01_translated_accepted_readable_partial restate the '
                    'round trips about the translated source.'),
     'level_note': ('partial for Float, Decimal, Currency, DecimalString, Pickle, JSON, Uuid: repr(float), Decimal, pickle, json, '
                    'UUID are uninterpreted tokens; only the glue is proved, end-to-end behaviour is covered by the '
@@ -55,9 +58,11 @@ META = {
     'assumptions': ['translated validators: the interface listed in the header of Model/CodecX.lean (validator/state/connection '
                     'attributes, class and hasattr tables of the universe tags, int()/str()/bool()/Decimal() on the interpreted '
                     'values, strptime = the model parser on the parsed format text, base64 = the model functions, float and Decimal '
-                    'arithmetic uninterpreted) and formencode compound.All order (Model/CodecXChain.lean); raise messages are not evaluated; '
-                    'Float/DecimalString/Pickle/Uuid/JSON validators and SQLObject._SO_selectInit are translated or listed but not proved '
-                    '(hand model + correspondence streams)',
+                    'arithmetic uninterpreted, json/pickle/UUID/Decimal-text codecs abstract: a value is identified with its encoding) '
+                    'and formencode compound.All order (Model/CodecXChain.lean); raise / assert messages are not evaluated; '
+                    'setattr(self, computed name, v) is observed as a write log; the write-side plumbing of main.py (_SO_setValue, set) '
+                    'is NOT tied to these validators by a proof (PyMain proves it for abstract total codecs over another value type); '
+                    'JsonbValidator (postgres only, no model kind) is not translated',
                     'a float token denotes one double: SQLite parses repr(f) back to f', 'Decimal(d.to_eng_string()) == d, UUID(str(u)) == u, '
                     'json.loads(json.dumps(v)) == v, pickle.loads(pickle.dumps(v)) == v on the generated values',
                     'strings are NUL-free and have no lone surrogates (the driver refuses both)'],
@@ -1103,8 +1108,53 @@ def read_stream_cases(ctx):
     return out
 
 
+# ------------------------------------------------------------------ interface tables of the translated validators
+IFACE_CLASSES = {'NoneType': type(None), 'bool': bool, 'int': int, 'float': float, 'str': str, 'bytes': bytes,
+                 'datetime.datetime': D.datetime, 'datetime.date': D.date, 'datetime.time': D.time,
+                 'datetime.timedelta': D.timedelta, 'Decimal': Dec, 'UUID': uuid.UUID, 'dict': dict, 'list': list,
+                 'memoryview': memoryview, 'bytearray': bytearray}
+IFACE_ATTRS = ['__int__', '__float__', '__long__', '__bool__', '__nonzero__', '__unicode__', 'sqlmeta', 'strftime']
+
+
+def interface_stream(ctx, e):
+    """Model/CodecX.lean runs the TRANSLATED validators with a table of the classes each value tag is an instance of
+    and of the attributes it has (isinstance / hasattr of the source): compare the tables with real Python objects."""
+    from sqlobject import sqlbuilder
+
+    class Plain(object):          # what a `pickled` token stands for: an object of no special class
+        pass
+    inst = e['others'][True][1][0]
+    inst_s = e['others'][('s', True)][1][0]
+    samples = [(None, 'N'), (True, 'b1'), (False, 'b0'), (0, 'i0'), (-7, 'i-7'), (2 ** 70, 'i%d' % 2 ** 70),
+               (1.5, 'f' + cps('1.5')), (float('nan'), 'f' + cps('nan')), ('', 's' + cps('')), ('x.y', 's' + cps('x.y')),
+               (b'', 'y' + cps(b'')), (b'ab', 'y' + cps(b'ab')), (D.datetime(2020, 1, 2, 3, 4, 5, 6), 'D2020,1,2,3,4,5,6'),
+               (D.date(2020, 1, 2), 'd2020,1,2'), (D.time(3, 4, 5, 6), 't3,4,5,6'), (Dec('1.50'), 'c' + cps('1.50')),
+               (uuid.UUID(int=5), 'u' + cps(str(uuid.UUID(int=5)))), ({}, 'j' + cps('{}')), ({'a': [1]}, 'j' + cps('{"a": [1]}')),
+               (Plain(), 'p' + cps(b'x')), (inst, 'o%d' % inst.id), (inst_s, 'O' + cps(inst_s.id))]
+    lines = []
+    for _, t in samples:
+        lines.append('k cls %s' % t)
+        lines.append('k attr %s' % t)
+    outs = ctx.model(lines)
+    if outs is None:
+        return
+    for k, (v, t) in enumerate(samples):
+        mcls, mattr = outs[2 * k], outs[2 * k + 1]
+        case = {'value': repr(v)[:80], 'token': t}
+        real_cls = sorted(n for n, c in IFACE_CLASSES.items() if isinstance(v, c))
+        if isinstance(v, sqlbuilder.SQLExpression):
+            real_cls.append('sqlbuilder.SQLExpression')
+        ctx.compare('iface-classes', case, sorted(x for x in mcls.split(';') if x), real_cls)
+        real_attr = sorted(a for a in IFACE_ATTRS if hasattr(v, a))
+        ctx.compare('iface-attrs', case, sorted(''.join(chr(c) for c in uncps(x)) for x in mattr.split(';') if x), real_attr)
+    import sqlobject.col as _col
+    ctx.compare('iface-globals', {'what': 'PY2, mx / zope DateTime availability'},
+                [False, False, False], [bool(_col.PY2), bool(_col.mxdatetime_available), bool(_col.zope_datetime_available)])
+
+
 def run(ctx):
     e = env()
+    interface_stream(ctx, e)
     cases = build_cases(ctx, e)
     # ---- model answers in one driver call
     lines = []
